@@ -100,6 +100,12 @@ let pyval = function
 let pyrec (r : (M.string * M.pyval) list) : string =
   String.concat "," (List.sort compare (List.map (fun (k, v) -> hex_of_string (string_of_cstring k) ^ "=" ^ pyval v) r))
 
+(* bool vectors as strings of 0/1 ("-" = empty); int vectors comma separated *)
+let bools_of_string s = if s = "-" then [] else List.init (String.length s) (fun i -> s.[i] = '1')
+let string_of_bools l = if l = [] then "-" else String.concat "" (List.map (fun b -> if b then "1" else "0") l)
+let zs_of_string s = if s = "-" then [] else List.map cz_of_string (String.split_on_char ',' s)
+let string_of_zs l = if l = [] then "-" else String.concat "," (List.map string_of_cz l)
+
 (* ---- commands ------------------------------------------------------- *)
 let run (w : string list) : string =
   match w with
@@ -132,6 +138,23 @@ let run (w : string list) : string =
     let nm = cstring_of (string_of_hex name) in
     let (r2, o) = M.dev_setattr r nm (M.PInt (cz_of_string "7")) in
     pyrec r ^ " | " ^ (match o with M.Done -> "done" | M.TypeError -> "TypeError") ^ " | " ^ pyrec r2
+  | [ "frame_start"; v ] -> res_to_string hex_of_bytes (M.frame_start (v = "1"))
+  | [ "frame_cmninfo" ] -> res_to_string hex_of_bytes M.frame_cmninfo
+  | [ "frame_chinfo"; k ] -> res_to_string hex_of_bytes (M.frame_chinfo (cz_of_string k))
+  | [ "frame_enable_single"; n; k; v ] ->
+    res_to_string hex_of_bytes (M.frame_enable (M.EnSingle (cz_of_string k, v = "1")) (cz_of_string n))
+  | [ "frame_enable_vec"; n; l ] ->
+    res_to_string hex_of_bytes (M.frame_enable (M.EnVec (bools_of_string l)) (cz_of_string n))
+  | [ "frame_div_single"; n; k; v ] ->
+    res_to_string hex_of_bytes (M.frame_div (M.DivSingle (cz_of_string k, cz_of_string v)) (cz_of_string n))
+  | [ "frame_div_vec"; n; l ] ->
+    res_to_string hex_of_bytes (M.frame_div (M.DivVec (zs_of_string l)) (cz_of_string n))
+  | [ "start_decode"; d ] ->
+    res_to_string (fun b -> if b then "1" else "0") (M.frame_start_decode (bytes_of_hex d))
+  | [ "enable_decode"; d; cur ] ->
+    res_to_string string_of_bools (M.frame_enable_decode (bytes_of_hex d) (bools_of_string cur))
+  | [ "div_decode"; d; cur ] ->
+    res_to_string string_of_zs (M.frame_div_decode (bytes_of_hex d) (zs_of_string cur))
   | _ -> "driver-error unknown-command"
 
 let () =
